@@ -443,6 +443,43 @@ func (c *FnCtx) loopHead(b *ssa.BasicBlock, li *loopInfo, ins []loopEdge) {
 			c.heap[w] = c.fresh(strings.Trim(w, "|"), c.heapSort(w))
 		}
 	}
+	// local cells that the loop itself never writes keep their content across the havoc
+	if !c.discover {
+		for _, a := range c.localCells {
+			written := false
+			for blk := range li.body {
+				if c.cellWrites[blk][c.allocOf[a]] {
+					written = true
+				}
+			}
+			if written {
+				continue
+			}
+			for _, w := range ws {
+				n := strings.Trim(w, "|")
+				if !(strings.HasPrefix(n, "H ") || strings.HasPrefix(n, "Cell ") || strings.HasPrefix(n, "Elems ")) {
+					continue
+				}
+				old, cur := preHeap[w], c.heap[w]
+				if old == "" || old == cur {
+					continue
+				}
+				c.define(eq(sel(cur, a), sel(old, a)))
+				if kv, ok := c.known[old][a]; ok {
+					if c.known[cur] == nil {
+						c.known[cur] = map[string]string{}
+					}
+					c.known[cur][a] = kv
+				}
+				if kv, ok := c.known2[old][a]; ok {
+					if c.known2[cur] == nil {
+						c.known2[cur] = map[string]string{}
+					}
+					c.known2[cur][a] = kv
+				}
+			}
+		}
+	}
 	for k, gv := range c.ghost {
 		if li.writes["ghost:"+k] {
 			c.ghost[k] = Val{T: c.fresh("ghost_"+k, c.sortOf(gv.Ty)), Ty: gv.Ty}
